@@ -320,8 +320,11 @@ TellProto(c, q) ==
 TellMgr(c) ==
   /\ conn[c].st = "closing" /\ ~conn[c].mtold
   /\ (conn[c].tell = {} \/ Mutant = "mgr-first")
-  /\ Len(mch) < MCap
-  /\ mch' = Append(mch, c)
+  \* `mgr_tx.send(..).await`: the report suspends while the manager's channel is full.  Seeded bug
+  \* "mgr-report-dropped-when-full": try_send, and a full channel makes the call return an error - the
+  \* manager is never told
+  /\ (Len(mch) < MCap \/ Mutant = "mgr-report-dropped-when-full")
+  /\ mch' = IF Len(mch) < MCap THEN Append(mch, c) ELSE mch
   /\ conn' = [conn EXCEPT ![c].mtold = TRUE]
   /\ NoStim /\ UNCHANGED <<pch, open_, mgr, svc, next, nsub, mon, kf>>
 
